@@ -84,7 +84,7 @@ pub fn lexiter(out: &mut Out, tier: &Tier, rng: &mut Rng) {
         let le = *rng.pick(LINE_ENDINGS);
         lexiter_case(out, &text, le, 1 + rng.below(8) as u8, rng.below(8), Some(rng.below(16) as u32));
     }
-    let extra = if tier.thorough { 60000 } else { 3000 };
+    let extra = if tier.thorough { 60000 } else { 12000 };
     for _ in 0..extra {
         let text = random_text(rng, ALPHABET, 16);
         let le = *rng.pick(LINE_ENDINGS);
@@ -336,7 +336,7 @@ fn random_op(rng: &mut Rng, allow_builders: bool, allow_sublex: bool) -> Op {
         6 => Op::NextIfEq(*rng.pick(&kinds)),
         7 => Op::AdvanceTo(*rng.pick(&kinds)),
         8 => Op::AdvanceUpTo(*rng.pick(&kinds)),
-        9 | 10 => Op::SetFilter(if rng.chance(1, 3) { None } else { Some(*rng.pick(&[1u32, 3, 5, 15])) }),
+        9 | 10 => Op::SetFilter(if rng.chance(1, 3) { None } else { Some(*rng.pick(&[1u32, 3, 5, 15, 2, 4, 8])) }),
         11 => if allow_sublex { if rng.chance(1, 2) { Op::StartSublex } else { Op::IntoSublexer } } else { Op::Spans },
         12 => Op::Spans,
         13 => Op::WithLineEnding(*rng.pick(LINE_ENDINGS)),
@@ -369,6 +369,18 @@ fn random_history(rng: &mut Rng, max_len: usize, builders_first: bool, allow_sub
         ops.push(if rng.chance(1, 2) { Op::StartSublex } else { Op::IntoSublexer });
         if rng.chance(1, 3) { ops.push(Op::Peek); }
         ops.push(Op::SetFilter(if rng.chance(1, 2) { None } else { Some(*rng.pick(&[1u32, 2, 4, 8])) }));
+        for _ in 0..1 + rng.below(3) { ops.push(random_op(rng, false, false)); }
+        return ops;
+    }
+    // structured stream without sub-lex marks: filter on, advances, a lookahead
+    // (peek / failed conditional advance / advance_up_to), a filter change, advances
+    if !builders_first && !allow_sublex && rng.chance(1, 3) {
+        let masks = [1u32, 3, 5, 15, 2, 4, 6, 8];
+        ops.push(if rng.chance(1, 2) { Op::WithFilter(Some(*rng.pick(&masks))) } else { Op::SetFilter(Some(*rng.pick(&masks))) });
+        for _ in 0..1 + rng.below(2) { ops.push(Op::Next); }
+        ops.push(match rng.below(4) { 0 => Op::Peek, 1 => Op::NextIf(*rng.pick(&[0u32, 3, 4, 12])), 2 => Op::NextIfEq(*rng.pick(&[0u32, 3, 4, 12])), _ => Op::AdvanceUpTo(*rng.pick(&[0u32, 3, 4])) });
+        if rng.chance(1, 4) { ops.push(Op::ForkBegin); ops.push(random_op(rng, false, false)); ops.push(Op::ForkEnd); }
+        ops.push(Op::SetFilter(if rng.chance(1, 2) { None } else { Some(*rng.pick(&masks)) }));
         for _ in 0..1 + rng.below(3) { ops.push(random_op(rng, false, false)); }
         return ops;
     }
@@ -425,7 +437,7 @@ pub fn lexops(out: &mut Out, tier: &Tier, rng: &mut Rng) {
             lexops_case(out, text, LineEnding::Lf, 4, 1, h);
         }
     }
-    let extra = if tier.thorough { 150000 } else { 6000 };
+    let extra = if tier.thorough { 150000 } else { 24000 };
     for i in 0..extra {
         let text = random_text(rng, LEX_ALPHABET, 8);
         let le = *rng.pick(LINE_ENDINGS);
